@@ -848,6 +848,8 @@ pub struct GoOutcome {
     pub watchdog_stop: bool,
     /// ... and at that moment the engine was using no CPU at all
     pub idle_without_answer: bool,
+    /// a time-bounded search had not answered when the watchdog fired and was sent a stop
+    pub late_stop: bool,
 }
 
 /// Sends `go`, waits for the answer according to the limits, observes the settle window.
@@ -876,6 +878,19 @@ pub fn do_go(e: &mut Engine, l: &Limits, stm: u8) -> GoOutcome {
         e.send("stop");
         watchdog_stop = true;
         idx = e.wait_out_unless_panic(ALLOWANCE_MS + 3_000, "bestmove", from);
+    }
+    let mut late_stop = false;
+    if idx.is_none() && bound.is_some() && e.is_alive() && !e.log[from..].iter().any(|x| x.src == Src::Err && x.line.contains("panicked at")) {
+        // a time-bounded search has not answered within bound + allowance + 2 s. On a loaded
+        // machine that alone proves nothing. Asleep without an answer = a missing answer; busy =
+        // ask it to stop and see: an answer that comes now was late (judged by re-running alone)
+        if e.is_idle_for(500).unwrap_or(false) {
+            e.settle(1_500); // the answer may be in the pipe while this reader was starved
+            idle_without_answer = e.count_out(from, "bestmove") == 0 && e.all_threads_sleeping().unwrap_or(false);
+        }
+        e.send("stop");
+        late_stop = true;
+        idx = e.wait_out_unless_panic(10_000, "bestmove", from);
     }
     if idx.is_none() && bound.is_none() && !l.has_count_limit() {
         // nothing bounds this search: a conformant GUI ends it with stop
@@ -906,6 +921,7 @@ pub fn do_go(e: &mut Engine, l: &Limits, stm: u8) -> GoOutcome {
         stop_sent,
         watchdog_stop,
         idle_without_answer,
+        late_stop,
     }
 }
 
@@ -1025,6 +1041,20 @@ fn go_session(ctx: &Ctx, idx: usize, seeds: &[String], prop: &str) {
     }
     let gos = 1 + rng.below(6);
     for k in 0..gos {
+        if prop == "C09" && rng.chance(1, 12) {
+            // a position is set up but not searched, then a new game is announced and searched
+            // without a position command: the go is about the start position
+            let other = random_game(&mut rng, seeds, 12, true);
+            e.send(&other.command());
+            e.send("ucinewgame");
+            g = Game {
+                start_fen: START_FEN.to_string(),
+                is_startpos: true,
+                moves: vec![],
+                positions: vec![Pos::startpos()],
+            };
+            out::count("C09.go_after_ucinewgame_without_position", 1);
+        }
         let p = g.last().clone();
         let legal: Vec<String> = p.legal_moves().iter().map(Mv::uci).collect();
         if legal.is_empty() {
@@ -1183,6 +1213,26 @@ fn c09_verdict(ctx: &Ctx, idx: usize, e: &mut Engine, o: &GoOutcome, l: &Limits,
         out::note(format!("watchdog fired on a count-limited search: {ctxt}"));
         out::inconclusive("C09 depth/node-limited search still running when the watchdog fired (answered after stop; the limits do not bound its time)", 1);
     }
+    // a verdict that rests on elapsed time alone (no answer yet, engine busy, no panic) is only a
+    // verdict if the same go, alone in a fresh engine, fails the same way three times out of three
+    let time_only = o.bestmove.is_none() && panic_line.is_none() && !o.idle_without_answer && o.alive;
+    if time_only {
+        let mut reproduced = 0;
+        for _ in 0..3 {
+            if let Some(mut e2) = spawn(ctx, &[]) {
+                e2.send(&g.command());
+                let o2 = do_go(&mut e2, l, p.stm);
+                if o2.bestmove.is_none() {
+                    reproduced += 1;
+                }
+                e2.kill();
+            }
+        }
+        if reproduced < 3 {
+            out::inconclusive("C09 missing answer of a busy engine not reproduced when re-run alone (machine load)", 1);
+            return;
+        }
+    }
     match &o.bestmove {
         None => {
             let why = match &panic_line {
@@ -1196,7 +1246,7 @@ fn c09_verdict(ctx: &Ctx, idx: usize, e: &mut Engine, o: &GoOutcome, l: &Limits,
             out::violation(
                 "C09",
                 &format!("no-bestmove[{class}]"),
-                format!("no bestmove for {ctxt} within the watchdog ({} ms){}; {why}", o.latency_ms, if o.stop_sent { " even after stop" } else { "" }),
+                format!("no bestmove for {ctxt} within the watchdog ({} ms){}{}; {why}", o.latency_ms, if o.stop_sent || o.late_stop { " even after stop" } else { "" }, if time_only { ", reproduced 3/3 alone" } else { "" }),
                 replay_json("C09", idx, e),
             );
         }
@@ -1953,6 +2003,47 @@ fn c15_heavy_cache(ctx: &Ctx, idx: usize) {
     }
 }
 
+/// A search that its limits do not bound in time (depth 1 or 2 on a position whose capture search
+/// runs for minutes) must not take the input thread with it: isready is answered while it runs,
+/// stop ends it, quit ends the process.
+fn c15_endless_shallow_search(ctx: &Ctx, idx: usize, rng: &mut Rng) {
+    let heavy = corpus::queen_rich_seeds();
+    if heavy.is_empty() {
+        return;
+    }
+    for round in 0..2 {
+        let Some(mut e) = spawn(ctx, &[]) else { return };
+        let fen = &heavy[(idx + round) % heavy.len()];
+        let go = *rng.pick(&["go depth 1", "go depth 2", "go depth 1 nodes 4000000000", "go depth 2 movetime 3600000"]);
+        let from = e.log.len();
+        e.send(&format!("position fen {fen}"));
+        e.send(go);
+        e.settle(300);
+        e.send("isready");
+        out::count("C15.evaluations", 1);
+        out::count("C15.shallow_searches_on_queen_rich_positions", 1);
+        out::count_shape(&format!("position fen QUEENS {go} isready"));
+        let still_searching = e.count_out(from, "bestmove") == 0;
+        if e.wait_since(from, READY_TIMEOUT_MS, |ev| ev.src == Src::Out && ev.line == "readyok").is_none() {
+            out::violation(
+                "C15",
+                "wedged[shallow go on a capture-rich position]",
+                format!("'position fen {fen}' + '{go}' + 'isready': no readyok within {READY_TIMEOUT_MS} ms (search {}; engine {})", if still_searching { "still running" } else { "had already answered" }, if e.is_alive() { "alive" } else { "gone" }),
+                replay_json("C15", idx, &e),
+            );
+            e.kill();
+            return;
+        }
+        e.send("stop");
+        let _ = e.wait_since(from, 5_000, |ev| ev.src == Src::Out && ev.line.starts_with("bestmove"));
+        e.send("quit");
+        if e.wait_exit(EXIT_TIMEOUT_MS).is_none() {
+            out::violation("C15", "no-exit-on-quit", format!("engine still running {EXIT_TIMEOUT_MS} ms after stop + quit that followed '{go}' on '{fen}'"), replay_json("C15", idx, &e));
+            e.kill();
+        }
+    }
+}
+
 /// go on positions where nothing is legal (mate, stalemate), with young and old clocks.
 fn c15_terminal(ctx: &Ctx, idx: usize, rng: &mut Rng) {
     let Some(mut e) = spawn(ctx, &[]) else { return };
@@ -2009,6 +2100,10 @@ fn c15_session(ctx: &Ctx, idx: usize, seeds: &[String]) {
     }
     if idx == 2 {
         c15_heavy_cache(ctx, idx);
+        return;
+    }
+    if idx == 3 || idx == 4 {
+        c15_endless_shallow_search(ctx, idx, &mut rng);
         return;
     }
     let Some(mut e) = spawn(ctx, &[]) else { return };
